@@ -90,7 +90,7 @@ def make_plane(lentil, act, arg):
         if arg == 'Plane':
             return lentil.Plane()
         if arg == 'Pupil':
-            return lentil.Pupil(focal_length=FOCAL)
+            return lentil.Pupil(focal_length=FOCAL + 1.0)       # differs from the wavefront's: a hand-over is visible
         if arg == 'Image':
             return lentil.Image()
         if arg == 'Tilt':
@@ -137,6 +137,9 @@ def run_program(lentil, prog):
                     r = lentil.propagate_fft(w, pixelscale=1.0, shape=N, oversample=1)
             else:
                 plane = make_plane(lentil, act, arg)
+                if exp == 'TypeError' and (i + len(prog)) % 2 == 0:
+                    # the type rule decides even when something else is wrong as well (here: an inconsistent pixel scale)
+                    plane._pixelscale = (3.0, 3.0)
                 before = (digest_obj(w), digest_obj(plane))
                 r = w * plane
             obs = str(r.ptype)
